@@ -67,6 +67,12 @@ Theorem C12_subdomain_tag_is_children_of_tagged : forall (idx : nat -> nat -> na
 Proof. exact propagate_spec. Qed.
 Print Assumptions C12_subdomain_tag_is_children_of_tagged.
 
+(* distinct (child number, cell) pairs have distinct positions: a tag cannot reach another cell's children *)
+Theorem C12_child_positions_distinct : forall nt j k j' k', k < nt -> k' < nt ->
+  gen_fallback_index nt j k = gen_fallback_index nt j' k' -> j = j' /\ k = k'.
+Proof. exact fallback_index_injective. Qed.
+Print Assumptions C12_child_positions_distinct.
+
 (* ---------------------------------------------------------------------------------------------
    refined(k): by induction on k, for ANY way [tabs] of computing the entity tables of the
    intermediate meshes: (2^d)^k nt cells, and the old vertices keep index and position. *)
